@@ -108,7 +108,7 @@ def generate(prop, rng, tier):
                             [6, 1, 2, 1])[0]
         else:
             t = rng.choices(['oop', 'ip', 'reject_in', 'reject_out',
-                             'scribble'], [3, 5, 1, 1, 1])[0]
+                             'scribble', 'raw'], [3, 5, 1, 1, 1, 1])[0]
         op = {'t': t, 'i': rng.randint(0, 2)}
         if t in ('ip', 'scribble', 'reject_out'):
             op['fill'] = rng.choice(GARBAGE)
@@ -118,6 +118,12 @@ def generate(prop, rng, tier):
             op['j'] = rng.randint(0, 1)
         if t == 'reject_in':
             op['kind'] = rng.choice(['wrong_space', 'string', 'wrong_shape'])
+        if t == 'raw':
+            # input that is not an element but can be converted to one
+            op['kind'] = rng.choice(['ndarray', 'ndarray_f', 'list',
+                                     'other_dtype'])
+            op['path'] = rng.choice(['oop', 'ip'])
+            op['fill'] = rng.choice(GARBAGE)
         if t == 'reject_out':
             op['kind'] = rng.choice(['wrong_space', 'ndarray'])
         ops.append(op)
@@ -503,6 +509,83 @@ class Run(object):
         self.ctx.fired('alias-held-element')
         self.ctx.event('alias_held', _dig(e))
 
+    def do_raw(self, o):
+        """A convertible non-element input (array of the right or another
+        floating dtype, Fortran-ordered array, nested list) gives the same
+        result, and the caller's object is not modified."""
+        op = self.op
+        i = o['i']
+        x = self.xs[i]
+        if not SP.is_elem(x):
+            raise Reject('field domain')
+        od = R.odl()
+        kind = o['kind']
+        if isinstance(x.space, od.ProductSpace):
+            if kind != 'list' or not x.space.is_power_space:
+                raise Reject('product space input')
+            raw = [np.array(p_.asarray(), copy=True).tolist()
+                   for p_ in x.parts if not hasattr(p_, 'parts')]
+            if len(raw) != len(x.parts):
+                raise Reject('nested product space')
+        else:
+            arr = np.array(x.asarray(), copy=True)
+            if kind == 'ndarray':
+                raw = arr
+            elif kind == 'ndarray_f':
+                raw = np.asfortranarray(arr)
+            elif kind == 'list':
+                raw = arr.tolist()
+            else:
+                if arr.dtype.kind not in 'fc':
+                    raise Reject('not a floating dtype')
+                if not op.is_linear:
+                    # rounding the input to another precision is amplified
+                    # by the (unbounded) conditioning of nonlinear operators
+                    raise Reject('other precision only for linear operators')
+                other = {'float64': 'float32', 'float32': 'float64',
+                         'complex128': 'complex64',
+                         'complex64': 'complex128'}.get(str(arr.dtype))
+                if other is None:
+                    raise Reject('no other precision')
+                raw = arr.astype(other)
+        kindref, yref = self.ref(i)
+        if kindref == 'raise':
+            raise Reject('reference raises')
+        before = raw.tobytes() if isinstance(raw, np.ndarray) else \
+            repr(raw)
+        fired = {}
+        with seams.allocator(self.k1, salt=27, fired=fired):
+            if o['path'] == 'oop' or self.is_functional or not SP.is_elem(
+                    _try(lambda: op.range.element())):
+                y = self.call('raw', lambda: op(raw))
+            else:
+                with seams.allocator('zero'):
+                    y = op.range.element()
+                fill_elem(y, o['fill'], salt=i)
+                ret = self.call('raw', lambda: op(raw, out=y))
+                if ret is not y:
+                    self.viol('ip-return', 'op(x, out=y) did not return y')
+        self._count(fired)
+        after = raw.tobytes() if isinstance(raw, np.ndarray) else repr(raw)
+        if before != after:
+            self.viol('raw-input-modified',
+                      'op(<{}>) modified the caller\'s object'.format(kind))
+        tol = self.tol(yref, x)
+        if kind == 'other_dtype':
+            # the conversion itself rounds to the lower precision
+            tol = max(tol, 1e3 * 1.2e-7 * (SP.magnitude(yref) +
+                                           SP.magnitude(x) + 1.0))
+            if self.cfg['recipe'] in TOL_SCALE:
+                raise Reject('finite differences of a rounded input')
+        ok, d = SP.close(y, yref, tol)
+        if not ok:
+            self.viol('raw-differs',
+                      'op(<{}>) differs from op(element) by {:.3g}'.format(
+                          kind, d))
+        self.ctx.fired('raw-input-' + kind)
+        self.ctx.event('raw', i, kind, _dig(y) if kind != 'other_dtype'
+                       else '')
+
     def do_reject_in(self, o):
         op = self.op
         od = R.odl()
@@ -847,7 +930,8 @@ def _execute(prop, plan, ctx):
     run.setup()
     fn = {'oop': run.do_oop, 'ip': run.do_ip, 'alias': run.do_alias,
           'reject_in': run.do_reject_in, 'reject_out': run.do_reject_out,
-          'scribble': run.do_scribble, 'alias_held': run.do_alias_held}
+          'scribble': run.do_scribble, 'alias_held': run.do_alias_held,
+          'raw': run.do_raw}
     done = 0
     for o in plan['ops']:
         try:
